@@ -3,3 +3,4 @@ import Strengths.Driver.All
 import Strengths.Props.C06
 import Strengths.Props.C01
 import Strengths.Props.C03
+import Strengths.Props.C04
